@@ -46,9 +46,26 @@ def indirect_may(P):
 
 
 def may_switch(P):
+    """functions that may switch kernel threads *and return to their caller*: a call of such a function from which the function's exit is
+    reachable (a switch on a path that ends in abort() does not come back, so nothing after it can be stale)"""
     key = "_may_switch"
     if not hasattr(P, key):
-        setattr(P, key, P.reaches({SWAP}, indirect_may(P)) - {SWAP} | {SWAP})
+        im = indirect_may(P)
+        ms = {SWAP}
+        fns = {f.name: f for f in P.unique_functions()}
+        changed = True
+        while changed:
+            changed = False
+            for name, fn in fns.items():
+                if name in ms:
+                    continue
+                for c in fn.calls():
+                    tg = {c.callee} if c.callee else set(im(fn, c))
+                    if tg & ms and (fn.cfgpos(c) is None or fn.find_path(c, "exit") is not None):
+                        ms.add(name)
+                        changed = True
+                        break
+        setattr(P, key, ms)
     return getattr(P, key)
 
 
